@@ -958,3 +958,13 @@ Definition handler_shape_ok (h : handler_prog) : bool :=
 (* package unmarshal is entered from controller/ only: through the ParsingFunction values made by Build (handler side up
    to parserDoer.Do, then the parser goroutine) and through the functions controllers call directly (handler side) *)
 Definition importers_ok (fs : list string) : bool := forallb (prefix "controller/") fs.
+
+(* what a column-level onEntries call is at the row level of IngestRobust.v: a call that panics is a decoder-side panic *)
+Definition abs_lev (ev : lcol_event) : logs_event :=
+  match ev with
+  | LcEntries e =>
+      if en_lbl_short e || (en_bad_type e || Nat.ltb (en_msg e) (en_ts e)) then LvPanic
+      else LvEntries {| ei_rows := N.of_nat (en_ts e); ei_series := N.of_nat (en_series e); ei_bytes := en_bytes e |}
+  | LcPanic => LvPanic
+  | LcErr t => LvErr (if t then e400 "decoder" else e_plain "decoder")
+  end.
